@@ -32,7 +32,7 @@ C10_DumpComplete == IsKv /\ Ev.o.op = "dump" /\ Ev.o.k = "" /\ Ev.backend \in {"
 C11_NoCrossRead == IsKv /\ Ev.o.op = "get" /\ Ev.res = "ok" /\ Ev.known =>
                       Ev.pt = G.h.pfx /\ (Sessioned(G.h.pfx) => Ev.ps = G.h.sid)
 C11_NoCrossList == IsKv /\ Ev.o.op = "dump" /\ Ev.res = "ok" =>
-                      \A i \in DOMAIN Ev.list : Ev.list[i].pt = G.h.pfx /\ (Sessioned(G.h.pfx) => Ev.list[i].ps = G.h.sid)
+                      \A i \in DOMAIN Ev.list : Ev.list[i].pk => (Ev.list[i].pt = G.h.pfx /\ (Sessioned(G.h.pfx) => Ev.list[i].ps = G.h.sid))
 \* a value written under one session / type is not destroyed from another: reading my own key returns my own latest write
 C11_NoCrossOverwrite == IsKv /\ Ev.o.op = "get" /\ Ev.panic = "" /\ R.res = "ok" => Ev.res = "ok" /\ (Ev.known => (Ev.pt = G.h.pfx /\ (Sessioned(G.h.pfx) => Ev.ps = G.h.sid)))
 =============================================================================
